@@ -95,6 +95,17 @@ def prop_eval(case, ctx):
     close(ctx, got, ref, tol, "get_many", ex)
     got = ctx.lib(teneva.get, YL, Iarg)            # batch spelling of get
     close(ctx, got, ref, tol, "get(batch)", ex)
+    # NumPy-style negative indices (counted from the end): "element access acts like the matching dense operation"
+    Ineg = Iarr.copy()
+    flip = (np.arange(Ineg.size).reshape(Ineg.shape) * 7 + len(n)) % 3 == 0
+    Ineg[flip] = Ineg[flip] - np.broadcast_to(np.array(n), Ineg.shape)[flip]
+    if np.any(flip):
+        ctx.label("negative_indices")
+        for fn_ in (teneva.get_many, teneva.get):
+            gotn = ctx.lib(fn_, YL, Ineg if case["as_array"] else Ineg.tolist())
+            close(ctx, gotn, ref, tol, f"{fn_.__name__}(batch with negative indices)", ex)
+        got1 = ctx.lib(teneva.get, YL, Ineg[0] if case["as_array"] else Ineg[0].tolist())
+        close(ctx, got1, ref[0], tol[0], "get(single index with negative entries)", ex)
     if case.get("long_m"):
         m_ = int(case["long_m"])
         ctx.label("long_batch", f"long_batch:2^{int(np.log2(m_))}")
